@@ -1039,6 +1039,11 @@ func kahnsAlgorithmUsingAuthEvents(events []*stateResV2ConflictedPowerLevel) []*
 	inDegree := make(map[string]int, len(events))
 
 	for _, event := range events {
+		// An event listed twice must be counted once, otherwise the in-degree
+		// of the events it references never returns to zero.
+		if _, ok := eventMap[event.eventID]; ok {
+			continue
+		}
 		// For each event that we have been given, add it to the event map so that
 		// we can easily refer back to it by event ID later.
 		eventMap[event.eventID] = event
@@ -1125,6 +1130,11 @@ func kahnsAlgorithmUsingPrevEvents(events []*stateResV2ConflictedOther) []*state
 	inDegree := make(map[string]int, len(events))
 
 	for _, event := range events {
+		// An event listed twice must be counted once, otherwise the in-degree
+		// of the events it references never returns to zero.
+		if _, ok := eventMap[event.eventID]; ok {
+			continue
+		}
 		// For each event that we have been given, add it to the event map so that
 		// we can easily refer back to it by event ID later.
 		eventMap[event.eventID] = event
